@@ -85,7 +85,7 @@ Proof. exact (fun rs bs => jp_roundtrip rs 0 bs (or_introl eq_refl)). Qed.
    tables were dumped): no rune comes back different, except ESC in ISO-2022-JP *)
 Theorem C17_single_character_decode_observed :
   rt_bad_ascii = [] /\ rt_bad_latin1 = [] /\ rt_bad_cyrillic = [] /\ rt_bad_hebrew = [] /\ rt_bad_ucs2 = [] /\
-  rt_bad_sjis = [] /\ rt_bad_eucjp = [] /\ rt_bad_euckr = [] /\ rt_bad_iso2022jp = [27].
+  rt_bad_sjis = [] /\ rt_bad_eucjp = [] /\ rt_bad_euckr = [] /\ rt_bad_iso2022jp = [27] /\ unparsed_iso2022jp = [].
 Proof. exact rt_observed. Qed.
 
 (* --- every data_coding value with an encoder has a decoder and a splitter -- *)
